@@ -4,14 +4,14 @@
 
 namespace ratio
 {
-    bool_flaw::bool_flaw(solver &slv, std::vector<resolver *> causes, bool_item &b_itm) : flaw(slv, std::move(causes), true), b_itm(b_itm) {}
+    bool_flaw::bool_flaw(solver &slv, std::vector<resolver *> causes, bool_item &b_itm) : flaw(slv, std::move(causes), true), b_lit(b_itm.l) {}
 
     std::string bool_flaw::get_data() const noexcept { return "{\"type\":\"bool\", \"phi\":\"" + to_string(get_phi()) + "\", \"position\":" + std::to_string(get_position()) + "}"; }
 
     void bool_flaw::compute_resolvers()
     {
-        add_resolver(*new choose_value(smt::rational(1, 2), *this, b_itm.l));
-        add_resolver(*new choose_value(smt::rational(1, 2), *this, !b_itm.l));
+        add_resolver(*new choose_value(smt::rational(1, 2), *this, b_lit));
+        add_resolver(*new choose_value(smt::rational(1, 2), *this, !b_lit));
     }
 
     // notice that the resolver has its own control literal: using the value itself as rho would force the flaw (and, hence, its causes) to be active, since 'val | !val' always holds..
